@@ -1172,7 +1172,8 @@ class CkSum(OptChk):
             lt, lty, lat = self.ex(l, want)
             rt, _, rat = self.ex(r, None)
             w = self.width(lty)
-            fn = ("shr" if op == ">>" else "shl") + str(w)
+            # a raw shift of a u128 is `shrU128`/`shlU128`: `shr128` is the name of the crate's own helper FUNCTION (which truncates to u64)
+            fn = ("shr" if op == ">>" else "shl") + ("U128" if w == 128 else str(w))
             return (f"{fn} {self.par(lt, lat)} {self.par(rt, rat)}", lty, False)
         if op == "+":
             terms = self.flatten_add(("bin", op, l, r))
